@@ -21,7 +21,7 @@ LEVEL = 'exploration'
 RULE = ('every character of the frozen invertible alphabet alone and in 5 neighbour contexts; every ordered pair of alphabet '
         'classes (control-word ending, control symbol, accent+letter, \\ensuremath{..}, brace escape, other macro form, ASCII '
         'letter / digit / punctuation / space / newline) with >= 8 (quick) / 40 (thorough) sampled pairs per cell, also with a '
-        'third character; every ordered pair of admissible ASCII characters, and sampled punctuation triples; random strings of length <= 8; each under the 4 brace-protection schemes x {default, strict} '
+        'third character; every alphabet character with a canonical decomposition given decomposed (non-NFC input); every ordered pair of admissible ASCII characters, and sampled punctuation triples; random strings of length <= 8; each under the 4 brace-protection schemes x {default, strict} '
         'latex2text whitespace policy. Non-trivial = string with >= 2 characters of which >= 1 has a built-in encoding; '
         'distinct = distinct string.')
 EXHAUSTIVE = {'quick': False, 'thorough': False}
@@ -53,17 +53,19 @@ def plan(tier, seed):
         return [{'kind': 'single', 'k': k, 'n': 5, 'name': 'single%d' % k} for k in range(5)] + \
                [{'kind': 'pairs', 'per_cell': 8, 'k': k, 'n': 6, 'name': 'pairs%d' % k} for k in range(6)] + \
                [{'kind': 'random', 'count': 1500, 'name': 'rand%d' % k} for k in range(5)] + \
-               [{'kind': 'asciipairs', 'k': k, 'n': 4, 'triples': 2000, 'name': 'ascii%d' % k} for k in range(4)]
+               [{'kind': 'asciipairs', 'k': k, 'n': 4, 'triples': 2000, 'name': 'ascii%d' % k} for k in range(4)] + \
+               [{'kind': 'decomposed', 'extra': 1500, 'name': 'nfd'}]
     return [{'kind': 'single', 'k': k, 'n': 8, 'name': 'single%d' % k} for k in range(8)] + \
            [{'kind': 'pairs', 'per_cell': 40, 'k': k, 'n': 12, 'name': 'pairs%d' % k} for k in range(12)] + \
            [{'kind': 'random', 'count': 25000, 'name': 'rand%d' % k} for k in range(12)] + \
-           [{'kind': 'asciipairs', 'k': k, 'n': 8, 'triples': 40000, 'name': 'ascii%d' % k} for k in range(8)]
+           [{'kind': 'asciipairs', 'k': k, 'n': 8, 'triples': 40000, 'name': 'ascii%d' % k} for k in range(8)] + \
+           [{'kind': 'decomposed', 'extra': 40000, 'name': 'nfd%d' % k} for k in range(2)]
 
 
 def floors(tier):
     return {'evaluations': 10000, 'distinct_nontrivial': 8000, 'round_trips': 80000,
             'histkeys:class_pair': 100, 'histkeys:scheme_policy': 8, 'alphabet_characters_alone': 1300,
-            'ascii_pairs': 8000}
+            'ascii_pairs': 8000, 'non_nfc_inputs': 1500}
 
 
 def setup(rec):
@@ -173,6 +175,37 @@ def run_shard(desc, rec):
                 if (ci + n) % 257 == 0:
                     rec.sample({'s': s, 'encoded': enc('braces').unicode_to_latex(s)})
                 check_case({'s': s}, rec)
+    elif kind == 'decomposed':
+        # inputs that are NOT in NFC: the statement promises the NFC form of the original back.  Every alphabet
+        # character with a canonical decomposition is given decomposed (NFD), alone, between ASCII neighbours, doubled,
+        # and in random mixtures with composed alphabet characters.
+        alpha = set(chars)
+        dec = [(c, unicodedata.normalize('NFD', c)) for c in chars
+               if unicodedata.normalize('NFD', c) != c and unicodedata.normalize('NFC', unicodedata.normalize('NFD', c)) in alpha]
+        asc = [chr(c) for c in d['ascii']]
+        def ok(x):
+            w = unicodedata.normalize('NFC', x)
+            return w == w.strip(' \n') and not any(f in w for f in d['forbidden_sequences']) and all(ch in alpha for ch in w)
+        for c, nfd in dec:
+            for s in (nfd, 'a' + nfd + 'b', nfd + nfd, 'x ' + nfd, nfd + '.'):
+                if not ok(s):
+                    continue
+                rec.case()
+                rec.monitor('non_nfc_inputs')
+                rec.nontrivial(s)
+                check_case({'s': s}, rec)
+        for i in range(desc['extra']):
+            parts = []
+            for _ in range(rng.randint(1, 4)):
+                r = rng.random()
+                parts.append(rng.choice(dec)[1] if r < 0.5 else (rng.choice(asc) if r < 0.85 else rng.choice(chars)))
+            s = ''.join(parts)
+            if unicodedata.normalize('NFC', s) == s or not ok(s):
+                continue
+            rec.case()
+            rec.monitor('non_nfc_inputs')
+            rec.nontrivial(s)
+            check_case({'s': s}, rec)
     elif kind == 'asciipairs':
         # every ordered pair of admissible ASCII characters (a pair that the decoder fuses into one character --
         # a ligature the encoder does not break up -- exists only in strings), then sampled triples
